@@ -1,5 +1,5 @@
 """C20 — no memory errors / undefined behaviour (partial by construction; category `other`)."""
-import importlib, os, random
+import importlib, os, random, re
 import gen
 ID = "C20"; DRIVER = "c20"; MODEL = "c20"
 COQ_PROPS = ["Properties_C20.v"]; COQ_EXTRACT = "Extract_C20.v"
@@ -84,6 +84,9 @@ def route(case):
     return ("c20", "c20", case)
 def judge(case, impl):
     if impl.startswith("CRASH"): return "FAIL memory_error " + impl[:300]
+    # drivers that run library calls in forked children (time limits) report a child that died as a token, not by dying themselves
+    if "Ecrash" in impl.split() or "@CRASH" in impl: return "FAIL memory_error a forked library call died: " + impl[:200]
+    if case.startswith("@c19") and re.search(r"(AB|AA|TW|INV|LAWS)=[^ ]*E", impl): return "FAIL memory_error a forked library call died or threw: " + impl[:200]
     if impl.startswith("HANG"): return "FAIL hang"
     if impl == "SKIPPED": return "OK skipped-after-crash-cap"
     return "OK sweep"
